@@ -200,8 +200,9 @@ def run(R):
     tcalls = [(n, c) for (n, c) in calls_in_ctx(gs, attr='get_signer') if ast.unparse(c.func.value) == 'self.tpm']
     R.need(len(tcalls) == 1, 'get_signer: tpm.get_signer call not found')
     (tn, tc) = tcalls[0]
+    tc_args = list(tc.args) + [k_.value for k_ in tc.keywords if k_.arg == 'key_locator_name']
     argnames = set()
-    for a in tc.args:
+    for a in tc_args:
         argnames |= {x.id for x in ast.walk(a) if isinstance(x, ast.Name)}
     stores = [n for n in gs.cfg.nodes if n.kind == 'stmt' and isinstance(n.ast, ast.Assign)
               and any(isinstance(t, ast.Subscript) and ast.unparse(t.value) == 'self._signer_cache' for t in n.ast.targets)]
@@ -269,11 +270,11 @@ def run(R):
     dn = [n for (n, v) in kdefs if isinstance(v, ast.AST) and ast.unparse(v) == 'cert_name']
     tests = [t for t in gs.cfg.nodes if t.kind == 'test' and ast.unparse(t.ast) in ('key_locator_name', 'key_locator_name is None', 'key_locator_name is not None')]
     if okd and dn and tests and dn[0].id not in gs.cfg.reachable(removed_edges={(tests[0].id, ast.unparse(tests[0].ast) == 'key_locator_name is None')}) \
-            and [ast.unparse(a) for a in tc.args] == ['key_name', 'key_locator_name']:
+            and [ast.unparse(a) for a in tc_args] == ['key_name', 'key_locator_name']:
         R.ok('C15.PRV.1', inst, site(gs, dn[0].ast))
     else:
         R.fail('C15.PRV.1', inst, gs.qual, dn[0].ast if dn else tc, 'the key locator does not default to the selected certificate / arguments of '
-               f'tpm.get_signer are {[ast.unparse(a) for a in tc.args]}', site(gs, tc))
+               f'tpm.get_signer are {[ast.unparse(a) for a in tc_args]}', site(gs, tc))
     inst = gs.qual + ' :: key name and certificate belong together'
     probs = []
     for n in gs.cfg.nodes:
@@ -286,7 +287,7 @@ def run(R):
             if nm == 'cert_name' and isinstance(v, ast.AST):
                 t = ast.unparse(v)
                 if t in ("sign_args.get('cert', None)", "sign_args.get('cert')", 'key.default_cert().name', 'key_name.default_cert().name',
-                         'self[id_name][key_name].default_cert().name', 'cert_name.name'):
+                         'self[id_name][key_name].default_cert().name', 'self[key_name[:-2]][key_name].default_cert().name', 'cert_name.name'):
                     continue
                 probs.append((f'certificate name derived as `{t}`', v))
     if probs:
